@@ -70,4 +70,9 @@ CONFIG = {
         "thorough": {'checks': 500000, 'shards': 14, 'timeout': 3600, 'shrinktime': '60s'},
         "assumptions": ['map iteration order is not promised: multi-entry map ranges are compared as multisets, and nothing consumable is ranged inside them', 'open channels are not generated (would block by design)', 'zero-valued structs/arrays and -0.0 are not used as conditions; nil elements of []interface{} are not printed'],
     },
+    'C07': {
+        "quick": {'checks': 10000, 'shards': 4, 'timeout': 900},
+        "thorough": {'checks': 500000, 'shards': 14, 'timeout': 3600, 'shrinktime': '60s'},
+        "assumptions": ["'=' on names that exist only as a global or built-in is excluded (statement silent)", "argument expressions of a yield never read one of the block's parameter names", "range in '=' form never uses '_' as a target"],
+    },
 }
